@@ -916,6 +916,17 @@ TAG_ADTS = {"std::option::Option": {"None": 0, "Some": 1}, "std::result::Result"
 BRANCH_MAP = {("std::result::Result", 0): 0, ("std::result::Result", 1): 1, ("std::option::Option", 1): 0, ("std::option::Option", 0): 1}
 
 
+# value-preserving conversions between Option and Result: (source adt, source variant index) -> destination variant index
+TAG_CONVERSIONS = {
+    "std::option::Option::<T>::ok_or": {("std::option::Option", 1): 0, ("std::option::Option", 0): 1},
+    "std::option::Option::<T>::ok_or_else": {("std::option::Option", 1): 0, ("std::option::Option", 0): 1},
+    "std::result::Result::<T, E>::ok": {("std::result::Result", 0): 1, ("std::result::Result", 1): 0},
+    "std::result::Result::<T, E>::map_err": {("std::result::Result", 0): 0, ("std::result::Result", 1): 1},
+    "std::result::Result::<T, E>::map": {("std::result::Result", 0): 0, ("std::result::Result", 1): 1},
+    "std::option::Option::<T>::map": {("std::option::Option", 0): 0, ("std::option::Option", 1): 1},
+}
+
+
 def tracked_tags(body):
     """locals whose *variant* is statically known along a path: every whole-local definition is an Option/Result/ControlFlow aggregate,
     a move/copy of such a local, or Try::branch of one; plus the integer locals holding `discriminant(<tracked>)`.
@@ -923,37 +934,32 @@ def tracked_tags(body):
     if getattr(body, "_tags", None) is not None:
         return body._tags
     cand = {}
+    prog_adts = body.prog.adts if body.prog is not None else {}
     for l, decl in enumerate(body.locals):
-        if body.is_param(l):
+        if body.is_param(l) or decl["ty"].startswith("&"):
             continue
         adt = decl.get("adt")
-        if adt in TAG_ADTS:
+        if adt in TAG_ADTS or (adt in prog_adts and prog_adts[adt]["kind"] == "Enum"):
             cand[l] = adt
-    changed = True
-    while changed:
-        changed = False
-        for l in list(cand):
-            ds = body.defs().get(l, [])
-            if not ds:
-                del cand[l]
-                changed = True
-                continue
-            for rec in ds:
-                ok = False
-                if rec[0] == "assign":
-                    rv = rec[3]["rv"]
-                    if rv["k"] == "aggregate" and rv["agg"]["k"] == "adt" and rv["agg"]["adt"] == cand[l]:
-                        ok = True
-                    elif rv["k"] == "use" and rv["op"]["k"] in ("copy", "move") and not rv["op"]["pl"]["p"] and rv["op"]["pl"]["l"] in cand:
-                        ok = True
-                elif rec[0] == "call" and not rec[2]["dest"]["p"] and is_try_branch(rec[2]) and rec[2]["args"]:
-                    p = op_place(rec[2]["args"][0])
-                    if p is not None and not p["p"] and p["l"] in cand:
-                        ok = True
-                if not ok:
-                    del cand[l]
-                    changed = True
-                    break
+    # every whole-local definition either determines the variant (aggregate, move of a tracked local, Try::branch / conversion of
+    # a tracked local, from_residual) or makes it unknown (None) — unknown definitions do not stop the tracking of the local
+    for l in list(cand):
+        ds = body.defs().get(l, [])
+        if not ds or not any(r[0] in ("assign", "call") for r in ds):
+            del cand[l]
+            continue
+        useful = False
+        for rec in ds:
+            if rec[0] == "assign":
+                rv = rec[3]["rv"]
+                if rv["k"] == "aggregate" and rv["agg"]["k"] == "adt" and rv["agg"]["adt"] == cand[l]:
+                    useful = True
+                elif rv["k"] == "use" and rv["op"]["k"] in ("copy", "move") and not rv["op"]["pl"]["p"]:
+                    useful = True
+            elif rec[0] == "call" and (is_try_branch(rec[2]) or is_from_residual(rec[2]) or callee_name(rec[2]) in TAG_CONVERSIONS):
+                useful = True
+        if not useful:
+            del cand[l]
     # integer locals that read the discriminant of a tracked local
     discr = {}
     for l in range(len(body.locals)):
@@ -965,7 +971,7 @@ def tracked_tags(body):
     return body._tags
 
 
-def explore(body, cut=None, mark_edges=None, start_env=None):
+def explore(body, cut=None, mark_edges=None, start_env=None, start_blocks=None):
     """Flag- and tag-sensitive exploration from the entry.
     Returns (visited_blocks, marked_blocks, prev) where marked_blocks are the blocks visited on a
     path that took one of `mark_edges` before; prev maps state -> predecessor state (for witnesses).
@@ -979,9 +985,17 @@ def explore(body, cut=None, mark_edges=None, start_env=None):
     didx = {l: len(flags) + len(tagl) + i for i, l in enumerate(discl)}
     n = len(flags) + len(tagl) + len(discl)
     env0 = tuple([None] * n) if start_env is None else start_env
-    start = (0, env0, False)
-    prev = {start: None}
-    dq = deque([start])
+    if start_blocks is None:
+        start = (0, env0, False)
+        prev = {start: None}
+        dq = deque([start])
+    else:
+        prev = {}
+        dq = deque()
+        for sb in start_blocks:
+            st0 = (sb, env0, True)
+            prev[st0] = None
+            dq.append(st0)
     visited = set()
     marked = set()
     budget = 400000
@@ -1013,18 +1027,32 @@ def explore(body, cut=None, mark_edges=None, start_env=None):
                 else:
                     e[idx[l]] = e[idx[op["pl"]["l"]]]
             elif l in tidx:
-                if rv["k"] == "aggregate":
+                if rv["k"] == "aggregate" and rv["agg"]["k"] == "adt" and rv["agg"]["adt"] == tags[l]:
                     e[tidx[l]] = rv["agg"]["vi"]
-                else:
+                elif rv["k"] == "use" and rv["op"]["k"] in ("copy", "move") and not rv["op"]["pl"]["p"] and rv["op"]["pl"]["l"] in tidx:
                     e[tidx[l]] = e[tidx[rv["op"]["pl"]["l"]]]
+                else:
+                    e[tidx[l]] = None
             elif l in didx:
-                e[didx[l]] = e[tidx[rv["pl"]["l"]]]
+                vi = e[tidx[rv["pl"]["l"]]]
+                adt = tags[rv["pl"]["l"]]
+                if vi is not None and adt not in TAG_ADTS:
+                    a = body.prog.adts.get(adt) if body.prog is not None else None
+                    vi = next((v["discr"] for v in a["variants"] if v["vi"] == vi), vi) if a else vi
+                e[didx[l]] = vi
         t = blk["term"]
         known = None
         if t["k"] == "call" and not t["dest"]["p"] and t["dest"]["l"] in tidx:
-            p = op_place(t["args"][0])
-            src = e[tidx[p["l"]]]
-            e[tidx[t["dest"]["l"]]] = BRANCH_MAP.get((tags[p["l"]], src)) if src is not None else None
+            dl = t["dest"]["l"]
+            p = op_place(t["args"][0]) if t["args"] else None
+            if is_from_residual(t):
+                e[tidx[dl]] = {"std::result::Result": 1, "std::option::Option": 0}.get(tags[dl])
+            elif p is not None and not p["p"] and p["l"] in tidx and (is_try_branch(t) or callee_name(t) in TAG_CONVERSIONS):
+                src = e[tidx[p["l"]]]
+                conv = BRANCH_MAP if is_try_branch(t) else TAG_CONVERSIONS.get(callee_name(t), {})
+                e[tidx[dl]] = conv.get((tags[p["l"]], src)) if src is not None else None
+            else:
+                e[tidx[dl]] = None
         if t["k"] == "switch":
             op = t["discr"]
             if op["k"] in ("copy", "move") and not op["pl"]["p"]:
@@ -1064,6 +1092,20 @@ def region(body, edge_ids, cut=None):
     """P-region: blocks that lie on some path after one of the given edges has been taken"""
     _, marked, _ = explore(body, cut=cut, mark_edges=set(edge_ids))
     return marked
+
+
+def after_edges(body, edge_ids, cut=None):
+    """flag/tag-sensitive region reachable when starting by taking one of the given edges (nothing is assumed about the path
+    before the edge: flags/tags start unknown), honouring `cut`"""
+    starts = []
+    for (b, i) in edge_ids:
+        s_ = body.raw_succs(b)[i][0]
+        if not body.blocks[s_]["cleanup"]:
+            starts.append(s_)
+    if not starts:
+        return set()
+    vis, _, _ = explore(body, cut=cut, start_blocks=starts)
+    return vis
 
 
 def exclusive_region(body, edge_ids):
